@@ -1,6 +1,7 @@
 """C19 - flag octets are decoded and encoded bit-exactly per TS 29.244."""
 import itertools
 import json
+import os
 import random
 import re
 from concurrent.futures import ThreadPoolExecutor
@@ -309,6 +310,13 @@ def run_shard(ctx, harness, names, consts, sw, idx):
         return dict(sw=sw, error="harness: " + log[-500:])
     obs = out["sweeps"][0]
     ev = evaluate(ctx, "cases_c19_s%d" % idx, names, consts, {}, {}, [sw], [obs])
+    for f in os.listdir(ctx.workdir):                       # shard files are large; drop them as soon as they are evaluated
+        if f.startswith("cases_c19_s%d." % idx) or f.startswith(".cases_c19_s%d." % idx) or f.startswith("cases_c19_s%d_mon." % idx) \
+                or f in ("in-flags-s%d.json" % idx, "out-flags-s%d.json" % idx):
+            try:
+                os.remove(os.path.join(ctx.workdir, f))
+            except OSError:
+                pass
     ev["sw"] = sw
     ev["obs_of"] = {}
     if ev["results"]:
